@@ -682,7 +682,10 @@ pub fn run<P: Prop>(p: &P, tier: Tier) -> i32 {
     if violations.is_empty() {
         0
     } else {
-        for (path, fails) in &violations {
+        if violations.len() > 3 {
+            println!("  ({} failing cases; showing 3)", violations.len());
+        }
+        for (path, fails) in violations.iter().take(3) {
             for f in fails.iter().take(3) {
                 println!("  failure key={} :: {}", f.key, f.msg);
             }
